@@ -14,11 +14,14 @@ from ..oracles import check_candidates, check_seeds, check_sets, skip_exempt
 
 class C14(Machine):
     ID = "C14"
-    FAMILY_WEIGHTS = {"sparse": 3, "dense": 1, "canal": 3, "modular": 4, "maa": 3, "cascade": 2}
+    FAMILY_WEIGHTS = {"sparse": 3, "dense": 1, "canal": 3, "modular": 4, "maa": 3, "cascade": 2, "maa_cascade": 2}
     NMAX = {"quick": 6, "thorough": 8}
 
     def gen_params(self, sc, rng):
         sc["params"] = {"len": rng.randint(2, 9), "p_attr": rng.choice([0.35, 0.5]), "p_cache": 0.08, "p_pickle": 0.06}
+        # a share of the histories starts by turning a node into a skip node and querying it:
+        # expanded-but-skipped nodes can still receive new successors (SCC attachment)
+        sc["params"]["skip_first"] = rng.random() < 0.15
         if rng.random() < 0.4:
             sc["walk_seed"] = rng.randrange(1 << 30)
         if rng.random() < 0.2:
@@ -32,6 +35,12 @@ class C14(Machine):
         p = st["params"]
         if step >= p["len"]:
             return None
+        if p.get("skip_first") and step < 3:
+            if step == 0:
+                return {"op": "skip_to_minimal", "node": world.space_of(0)}
+            if step == 1:
+                return attr_op(world, rng, nid=0)
+            return {"op": "scc", "maa": rng.random() < 0.5}
         r = rng.random()
         if r < p["p_attr"]:
             # bias toward unexpanded nodes: that is where staleness is born
